@@ -88,6 +88,9 @@ func (p *Plan) Clone() *Plan {
 	if err := json.Unmarshal(b, &c); err != nil {
 		panic(err)
 	}
+	if c.Meta == nil {
+		c.Meta = map[string]string{}
+	}
 	return &c
 }
 
@@ -309,6 +312,9 @@ func (w *World) apply(op *Op, orc Oracle) {
 		return
 	}
 	w.applyActor(op)
+	for _, h := range actorHooks {
+		h(w, op)
+	}
 	if orc != nil {
 		orc.AfterOp(w, op)
 	}
@@ -571,3 +577,8 @@ func panicClass(msg string) string {
 }
 
 func (w *World) corrupt(op *Op) { corruptFile(w, op) }
+
+// actorHooks run after every operation of the external actor (bookkeeping for oracles).
+var actorHooks []func(w *World, op *Op)
+
+func b64dec(s string) ([]byte, error) { return base64.StdEncoding.DecodeString(s) }
